@@ -132,6 +132,15 @@ def expr_function(a):
     return _FUNCS[key]
 
 
+def _flipzero(v):
+    """0.0 <-> -0.0: equal under ==, but not the same argument (copysign, 1/x, atan2 tell them apart)"""
+    import math
+
+    if isinstance(v, float) and v == 0.0:
+        return -0.0 if math.copysign(1.0, v) > 0 else 0.0
+    return v
+
+
 def _retype(v):
     if v is True:
         return 1.0
@@ -178,7 +187,7 @@ class C17(Scenario):
                    "bare scalars are only used with single-variable expressions"]
     expected_faults = ["memo_interleave"]
     expected_probes = ["memo_repeat_identical", "memo_repeat_equal_copy", "memo_change", "memo_array_batch", "memo_equal_value_other_type", "memo_function_fault", "string_first_scalar",
-                       "string_first_object", "string_first_dict", "wrapper_orders", "wrapper_travelled", "memo_mutated_in_place", "memo_batch_mutated_in_place"]
+                       "string_first_object", "string_first_dict", "wrapper_orders", "wrapper_travelled", "memo_mutated_in_place", "memo_batch_mutated_in_place", "memo_signed_zero"]
 
     # ------------------------------------------------------------------ generation
     def generate(self, rng, tier, profile):
@@ -197,6 +206,7 @@ class C17(Scenario):
                         {"p": "Select", "q": q(2, "b"), "cut": {"p": "Deviate", "q": q(0, "x")}}, {"p": "Minimize", "q": q(1, "y")},
                         {"p": "Categorize", "q": q(3, "s"), "value": {"p": "Sum", "q": q(1, "y")}},
                         {"p": "Categorize", "q": q(4, "c"), "value": None}, {"p": "Bag", "q": q(0, "x"), "range": "N"},
+                        {"p": "Sum", "q": dict(q(5, "x"), fn="sign")}, {"p": "Sum", "q": dict(q(5, "x"), fn="sign")},
                         # a cached weight transform shared by the Counts of a Bin (fill.numpy hands every bin its own weights)
                         {"p": "Bin", "num": 4, "low": -2.0, "high": 2.0, "q": q(0, "x"), "value": {"p": "Count", "transform": "sq", "tq": {"id": 7}},
                          "underflow": {"p": "Count", "transform": "sq", "tq": {"id": 7}}, "overflow": None, "nanflow": None}]
@@ -214,7 +224,7 @@ class C17(Scenario):
             for si in range(s.randint(4, 30)):
                 tr = s.randrange(2)
                 if s.chance(0.7):
-                    mode = s.pick(["same", "copy", "retype", "new", "new", "mutate", "mutate"])
+                    mode = s.pick(["same", "copy", "retype", "new", "new", "mutate", "mutate", "flipzero"])
                     rec = s.randrange(len(recs)) if (mode == "new" or last is None or last[0] != "row") else last[1]
                     steps.append({"op": "fill", "tree": tr, "rec": rec, "how": mode if (last and last[0] == "row") else "new", "w": s.pick([1.0, 1.0, 0.5, 2.0]),
                                   "actor": "T%d" % tr, "rec2": s.randrange(len(recs)), "fld": s.pick(["x", "y", "x", "s"])})
@@ -292,9 +302,13 @@ class C17(Scenario):
                         elif st["base"] == "def":
                             b = gate.make_def(7, "x", "myquantity")
 
+                        stages = []
+
                         def apply():
                             f = b
                             for name in perm:
+                                if isinstance(f, UserFcn):
+                                    stages.append((name, f, f.name, type(f)))
                                 f = ops[name](f)
                             if not isinstance(f, UserFcn):
                                 f = serializable(f)
@@ -304,6 +318,12 @@ class C17(Scenario):
                         if not o.ok:
                             raise self.violation("util", "wrap", "exception:%s" % type(o.exc).__name__,
                                                  "applying %s to a %s raised %s" % ("/".join(perm) or "serializable", st["base"], o.describe()), si)
+                        for opname, inner, nm0, ty0 in stages:
+                            # wrapping is pure: the wrapper handed in keeps its name and kind (another aggregator may hold it)
+                            if inner.name != nm0 or type(inner) is not ty0:
+                                raise self.violation("util", "wrap", "argument-changed:%s" % opname,
+                                                     "%s() changed the wrapper it was given: name %r -> %r, type %s -> %s (order %s)" % (
+                                                         opname, nm0, inner.name, ty0.__name__, type(inner).__name__, "/".join(perm)), si)
                         results.append((perm, o.value))
                         units += 1
                     for perm, f in results:
@@ -404,6 +424,11 @@ class C17(Scenario):
                     datum[st.get("fld", "x")] = w.records[st["rec2"]][st.get("fld", "x")]
                     base = dict(datum)
                     w.bump("probe_memo_mutated_in_place")
+                    chg += 1
+                elif how == "flipzero" and last_row is not None and last_row[0] == st["rec"]:
+                    datum = {k: _flipzero(v) for k, v in last_row[1].items()}
+                    base = dict(datum)
+                    w.bump("probe_memo_signed_zero")
                     chg += 1
                 elif how == "retype" and last_row is not None and last_row[0] == st["rec"]:
                     # an equal-valued record whose fields have another type (True / 1.0 / 1): == says equal, the
